@@ -1,4 +1,8 @@
-import SgModel.Lemmas.OehRollup
+import SgModel.Lemmas.OehMinMax
+import SgModel.Lemmas.OehLca
+import SgModel.Lemmas.OehFast
+import SgModel.Lemmas.OehLcaNested
+import SgModel.Lemmas.OehChain
 /-!
 # C28 — hierarchy index answers equal the brute-force poset answers
 
@@ -158,8 +162,11 @@ subsumption bits, descendant sets, SUM and COUNT roll-ups.
 
 Full statement (kept visible; not yet proved):
 `∀ P wf, ∀ enc, ∀ us, obs (us.foldl Index.update (build enc P m)) ⊨ S` for the chain and
-near-tree encodings as well, including MIN/MAX (segment tree, suffix folds) and LCA.
-Proved here: the nested-set encoding (the one `build` selects for every forest), SUM/COUNT. -/
+near-tree encodings as well, including their descendant enumeration, suffix folds and LCA.
+Proved here: the nested-set encoding (the one `build` selects for every forest), all four
+monoids.  For the near-tree encoding see `C28_neartree_subsumes_iff_reach` / `C28_neartree_lca`
+(subsumption and LCA on every DAG; its `descendants` frontier loop and FoldSet roll-up are
+not proved).  The chain encoding is differential only. -/
 theorem C28_model_refines_spec_partial {P : Poset} {h : Nat → Nat} (F : IsForest P h)
     (m : Measure) (hm : m.length = P.n) (us : List (Nat × Option Int))
     (x y : Nat) (hx : x < P.n) (hy : y < P.n) :
@@ -168,10 +175,14 @@ theorem C28_model_refines_spec_partial {P : Poset} {h : Nat → Nat} (F : IsFore
     I.lab.subsumes x y = specSubsumes P x y
     ∧ (I.lab.descendants y).Perm (specDesc P y)
     ∧ I.rollup .sum y = specRollup P m' .sum y
-    ∧ I.rollup .count y = specRollup P m' .count y := by
+    ∧ I.rollup .count y = specRollup P m' .count y
+    ∧ I.rollup .min y = specRollup P m' .min y
+    ∧ I.rollup .max y = specRollup P m' .max y := by
   intro I m'
   have inv := ninv_foldl F us _ _ (ninv_build F m hm)
-  refine ⟨?_, ?_, ?_, ?_⟩
+  have invmm := ninvmm_foldl F us _ _ (ninvmm_build F m hm)
+  refine ⟨?_, ?_, ?_, ?_, (rollup_minmax_of_inv F invmm y hy).1,
+    (rollup_minmax_of_inv F invmm y hy).2⟩
   · show I.lab.subsumes x y = _
     rw [inv.hlab]; exact C28_nested_subsumes_iff_reach F x y hx hy
   · show (I.lab.descendants y).Perm _
@@ -184,6 +195,120 @@ index the implementation actually builds for trees -/
 theorem C28_build_selects_nested (P : Poset) (m : Measure) (ht : P.isTree = true) :
     ∃ I, buildAuto P m = .ok (.nested I) ∧ I = NestedIdx.build P m := by
   simp [buildAuto, buildForced, ht]
+
+/-! ## stage 3 — segment tree (MIN / MAX) -/
+
+/-- `SegmentTree::build` establishes the node recurrence and the leaf layout … -/
+theorem C28_segtree_build (vals : List RV) (op : Op) (hid : op.identity = .null) :
+    SegInv (Seg.build vals op) (fun j => vals.getD j .null) := (seg_build_inv vals op hid).1
+
+/-- … the bottom-up `range(lo, hi)` returns the fold of exactly the leaves `lo ..= hi`
+(`segtree_range_min`; any commutative monoid with identity `Null`, i.e. MIN and MAX) … -/
+theorem C28_segtree_range {s : Seg} {leaf : Nat → RV} (M : CMon s.op.combine) (I : SegInv s leaf)
+    (hid : s.op.identity = .null) (lo hi : Nat) (hlo : lo ≤ hi) (hhi : hi < s.n) :
+    s.range lo hi = segS s.op.combine leaf lo (hi - lo + 1) := seg_range_eq M I hid lo hi hlo hhi
+
+/-- … and `set(pos, v)` keeps the invariant for the leaf vector with `v` at `pos` -/
+theorem C28_segtree_set {s : Seg} {leaf : Nat → RV} (I : SegInv s leaf) (pos : Nat) (v : RV)
+    (hpos : pos < s.n) : SegInv (s.set pos v) (fun j => if j = pos then v else leaf j) :=
+  (seg_set_inv I pos v hpos).1
+
+/-- MIN and MAX roll-ups after **any** sequence of `update_measure` calls equal the
+specification's fold over the set of descendants -/
+theorem C28_rollup_minmax_after_updates {P : Poset} {h : Nat → Nat} (F : IsForest P h)
+    (m : Measure) (hm : m.length = P.n) (us : List (Nat × Option Int)) (y : Nat) (hy : y < P.n) :
+    (us.foldl NestedIdx.update (NestedIdx.build P m)).rollup .min y
+        = specRollup P (us.foldl updMeasure m) .min y
+    ∧ (us.foldl NestedIdx.update (NestedIdx.build P m)).rollup .max y
+        = specRollup P (us.foldl updMeasure m) .max y :=
+  rollup_minmax_of_inv F (ninvmm_foldl F us _ _ (ninvmm_build F m hm)) y hy
+
+/-! ## stage 4 — chain encoding (partial)
+
+Full statement (kept visible): `∀ P, Acyclic P h → ∀ x y < n, (buildChain P).subsumes x y =
+specSubsumes P x y`.  Proved here under two *executable* hypotheses about the two graph
+algorithms the encoding rests on — `topoOkB P P.topoUp` (Kahn's sort lists every node once,
+children before parents) and `chainsOkB P (buildChain P)` (every node sits where `chain_of`
+says; every chain is a downward path).  Missing: the proofs that `topoLoop` and
+`decomposeChains` always produce such outputs; the driver evaluates both checks on every
+chain-encoded case it runs, so on the explored cases the hypotheses are discharged by
+computation.  What *is* proved is the heart of the encoding: the `reach` tables folded
+children-before-parents with `min`, and the binary-search test against them, are sound and
+complete. -/
+theorem C28_chain_reach_iff_partial {P : Poset} {h : Nat → Nat} (A : Acyclic P h)
+    (ht : topoOkB P P.topoUp = true) (hc : chainsOkB P (buildChain P) = true)
+    (x y : Nat) (hx : x < P.n) (hy : y < P.n) :
+    (buildChain P).subsumes x y = specSubsumes P x y := chain_subsumes_iff_reach A ht hc x y hx hy
+
+/-- chain LCA = minimal common upper bounds (same hypotheses) -/
+theorem C28_chain_lca_partial {P : Poset} {h : Nat → Nat} (A : Acyclic P h)
+    (ht : topoOkB P P.topoUp = true) (hc : chainsOkB P (buildChain P) = true)
+    (x y : Nat) (hx : x < P.n) (hy : y < P.n) :
+    lcaBy P.n (buildChain P).subsumes x y = specLca P x y :=
+  lcaBy_eq_specLca P _ (fun a b ha hb => chain_subsumes_iff_reach A ht hc a b ha hb) x y hx hy
+
+/-- the hypotheses hold on a concrete diamond (non-vacuity) -/
+example : topoOkB ⟨4, [(0, 1), (2, 1), (3, 0), (3, 2)]⟩ (Poset.topoUp ⟨4, [(0, 1), (2, 1), (3, 0), (3, 2)]⟩) = true
+    ∧ chainsOkB ⟨4, [(0, 1), (2, 1), (3, 0), (3, 2)]⟩ (buildChain ⟨4, [(0, 1), (2, 1), (3, 0), (3, 2)]⟩) = true := by
+  decide
+
+/-! ## stage 5 — near-tree encoding (spanning forest + exception edges)
+
+`IsDag P h`: endpoints in range, distinct edges, a height function witnessing acyclicity; any
+number of parents per node. -/
+
+/-- the interval test on the spanning forest, or a chain of exception hops found by
+`via_exception` with its threaded `seen` list, decides reachability: sound and complete on
+every DAG, whatever the order of the exception list -/
+theorem C28_neartree_subsumes_iff_reach {P : Poset} {h : Nat → Nat} (D : IsDag P h)
+    (x y : Nat) (hx : x < P.n) (hy : y < P.n) :
+    (buildNear P).subsumes x y = specSubsumes P x y := near_subsumes_iff_reach D x y hx hy
+
+/-- LCA: filtering the nodes by a correct subsumption test yields exactly the minimal common
+upper bounds of the specification (the DAG encodings' `lowest_common_ancestors`) -/
+theorem C28_lca_of_correct_subsumes (P : Poset) (sub : Nat → Nat → Bool)
+    (hs : ∀ a b, a < P.n → b < P.n → sub a b = specSubsumes P a b) (x y : Nat)
+    (hx : x < P.n) (hy : y < P.n) : lcaBy P.n sub x y = specLca P x y :=
+  lcaBy_eq_specLca P sub hs x y hx hy
+
+/-- near-tree LCA = minimal common upper bounds -/
+theorem C28_neartree_lca {P : Poset} {h : Nat → Nat} (D : IsDag P h) (x y : Nat)
+    (hx : x < P.n) (hy : y < P.n) :
+    lcaBy P.n (buildNear P).subsumes x y = specLca P x y :=
+  lcaBy_eq_specLca P _ (fun a b ha hb => near_subsumes_iff_reach D a b ha hb) x y hx hy
+
+/-- nested-set LCA (walk up from `x` to the first ancestor whose interval contains `y`) is the
+specification's set of minimal common upper bounds: one node, or none across different trees;
+also after any sequence of measure updates (they do not touch the labels) -/
+theorem C28_nested_lca {P : Poset} {h : Nat → Nat} (F : IsForest P h) (m : Measure)
+    (hm : m.length = P.n) (us : List (Nat × Option Int)) (x y : Nat) (hx : x < P.n)
+    (hy : y < P.n) :
+    (us.foldl NestedIdx.update (NestedIdx.build P m)).lca x y = specLca P x y := by
+  have inv := ninv_foldl F us _ _ (ninv_build F m hm)
+  unfold NestedIdx.lca
+  rw [inv.hP, inv.hlab]
+  exact nestedLca_eq F x y hx hy (P.n + 1) x hx (by omega) (Reach.refl _)
+    (fun c r => Or.inl r)
+
+/-! ## the specification evaluated by frontier closure (what the driver runs on large posets)
+is the specification -/
+
+/-- `descFast` (sorted frontier closure over `children`) is `specDesc` -/
+theorem C28_descFast_eq_specDesc {P : Poset} {h : Nat → Nat} (A : Acyclic P h) (y : Nat)
+    (hy : y < P.n) : descFast P y = specDesc P y := descFast_eq_specDesc A y hy
+
+/-- membership in `ancFast` (closure over `parents`) is `specSubsumes` -/
+theorem C28_ancFast_contains {P : Poset} {h : Nat → Nat} (A : Acyclic P h) (x c : Nat)
+    (hx : x < P.n) (hc : c < P.n) : (ancFast P x).contains c = specSubsumes P x c :=
+  ancFast_contains A x c hx hc
+
+theorem C28_specLcaFast_eq {P : Poset} {h : Nat → Nat} (A : Acyclic P h) (x y : Nat)
+    (hx : x < P.n) (hy : y < P.n) : specLcaFast P x y = specLca P x y := specLcaFast_eq A x y hx hy
+
+theorem C28_specRollupFast_eq {P : Poset} {h : Nat → Nat} (A : Acyclic P h) (m : Measure)
+    (op : Op) (y : Nat) (hy : y < P.n) : specRollupFast P m op y = specRollup P m op y := by
+  unfold specRollupFast specRollup
+  rw [descFast_eq_specDesc A y hy]
 
 /-! ### non-vacuity: a concrete forest (two roots, depth 3) satisfies `IsForest` -/
 
